@@ -70,7 +70,7 @@ func preload() {
 func pickPkg(r *simrt.Rng) *corpus.Pkg {
 	var ns []string
 	for _, n := range corpusNames() {
-		if !corpus.Get(n).HasTag("c15only") {
+		if !corpus.Get(n).HasTag("c15only") && !corpus.Get(n).HasTag("c03only") {
 			ns = append(ns, n)
 		}
 	}
